@@ -240,6 +240,10 @@ def targeted(b, marks, rng):
             if n >= 1:
                 for j in sorted({off, off + n - 1, off + rng.below(n)}):
                     out.append((b[:j] + b"\xff" + b[j + 1:], "err NonUtf8String", "utf8"))
+                # the same with everything else plain ASCII (a reader that looks at whole words or at a prefix only)
+                for j in sorted({0, n - 1, rng.below(n)}):
+                    bad = rng.choice([b"\xff", b"\x80"] + ([b"\xc3"] if j == n - 1 else []))   # 0xc3 last: a cut-off two-byte sequence
+                    out.append((b[:off] + b"a" * j + bad + b"a" * (n - 1 - j) + b[off + n:], "err NonUtf8String", "utf8-ascii-rest"))
     return out
 
 
